@@ -18,6 +18,7 @@ NG = 20
 GEN = list(range(1, 12))          # ordinary glyphs
 COMP = [12, 13, 14]               # ligature components (never GDEF marks)
 LIGS = [15, 16]                   # ligature glyphs
+MULT_SRC = 11                     # the glyph a MultipleSubst lookup expands
 DI = {17: 0x2060, 18: 0x200C, 19: 0x00AD}      # default-ignorable characters with glyphs of their own
 ALL = list(range(1, NG))
 
@@ -110,11 +111,17 @@ def target_font(r, kinds=None, cursive=False):
         ligsets = {12: set12}
         if r.chance(1, 2):
             ligsets[13] = [([14], 15)]
-        sem["gsub"] = {"flag": flag, "ligsets": ligsets}
+        # MultipleSubst (applied first): glyph 11 becomes a sequence of ordinary glyphs
+        mult = {MULT_SRC: [r.choice(GEN[:-1]) for _ in range(r.range(2, 3) if r.chance(5, 6) else 1)]} if r.chance(1, 2) else {}
+        sem["gsub"] = {"flag": flag, "ligsets": ligsets, "mult": mult}
         firsts = sorted(ligsets)
-        rec["gsub"] = {"features": [{"tag": "ccmp", "lookups": [0]}], "lookups": [{"type": 4, "flag": flag, "subtables": [{
+        lks = []
+        if mult:
+            lks.append({"type": 2, "flag": 0, "subtables": [{"coverage": [MULT_SRC], "sequences": [mult[MULT_SRC]]}]})
+        lks.append({"type": 4, "flag": flag, "subtables": [{
             "coverage": firsts,
-            "ligsets": [[{"components": c, "glyph": g} for c, g in ligsets[f]] for f in firsts]}]}]}
+            "ligsets": [[{"components": c, "glyph": g} for c, g in ligsets[f]] for f in firsts]}]})
+        rec["gsub"] = {"features": [{"tag": "ccmp", "lookups": list(range(len(lks)))}], "lookups": lks}
     lookups = []
     nl = r.range(1, 3) if r.chance(3, 4) else r.range(4, 5)
     for _ in range(nl):
@@ -185,6 +192,8 @@ def target_text(r, sem):
                 t.append(c)
                 if gmarks and r.chance(1, 3):
                     t += [r.choice(gmarks) for _ in range(r.range(1, 2))]
+        elif sem["gsub"] and sem["gsub"].get("mult") and k < 6:
+            t.append(MULT_SRC)
         else:
             t.append(r.choice(ALL if k < 8 else (GEN + LIGS)))
         for _ in range(r.choice([0, 1, 1, 2, 2, 3, 4])):
@@ -233,10 +242,10 @@ def passes(sem, g, props, flag, mset):
 
 
 class G:
-    __slots__ = ("g", "props", "lig_id", "comp", "is_lig", "src")
+    __slots__ = ("g", "props", "lig_id", "comp", "is_lig", "src", "mult")
 
     def __init__(self, g, props, src):
-        self.g, self.props, self.lig_id, self.comp, self.is_lig, self.src = g, props, 0, 0, False, src
+        self.g, self.props, self.lig_id, self.comp, self.is_lig, self.src, self.mult = g, props, 0, 0, False, src, False
 
 
 def run_gsub(sem, B):
@@ -245,6 +254,19 @@ def run_gsub(sem, B):
     gs = sem["gsub"]
     if not gs:
         return buf
+    if gs.get("mult"):
+        exp = []
+        for x in buf:
+            seq = gs["mult"].get(x.g)
+            if seq is None:
+                exp.append(x)
+            elif len(seq) == 1:                      # in place, not "multiplied"
+                exp.append(G(seq[0], props_of(sem, seq[0]), x.src))
+            else:
+                for ci, g in enumerate(seq):
+                    y = G(g, props_of(sem, g), x.src); y.mult, y.comp = True, ci
+                    exp.append(y)
+        buf = exp
     flag = gs["flag"]
     out, i, next_id = [], 0, 1
     while i < len(buf):
@@ -278,6 +300,16 @@ def run_gsub(sem, B):
     return out
 
 
+def later_of_sequence(buf, j):
+    """a glyph of a MultipleSubst sequence other than its first: a mark attaches to the first glyph of the
+    sequence (unless the font lists the later glyph as a base, or a mark interrupts the sequence)"""
+    x = buf[j]
+    if not x.mult or x.comp == 0 or j == 0:
+        return False
+    y = buf[j - 1]
+    return not (y.props & MARK) and y.mult and x.lig_id == y.lig_id and x.comp == y.comp + 1
+
+
 def is_di(x):
     return x.g in DI and not x.is_lig
 
@@ -293,6 +325,12 @@ def expected(sem, B):
     att = {}
     for lk in sem["lookups"]:
         flag, mset, typ = lk["flag"], lk["set"], lk["type"]
+        if typ == 4 and len(lk["subs"]) > 1 and any(
+                later_of_sequence(buf, j) and len({buf[j].g in s["bases"] for s in lk["subs"]}) > 1 for j in range(n)):
+            # the subtables of one MarkToBase lookup share the last-base cache, but whether a later glyph of a
+            # MultipleSubst sequence is a base depends on each subtable's base coverage: the second subtable then
+            # reuses the base found under the first one's coverage (same in HarfBuzz) — reported, not judged
+            return buf, None
         for i in range(n):
             cur = buf[i]
             if not passes(sem, cur.g, cur.props, flag, mset):
@@ -312,7 +350,8 @@ def expected(sem, B):
                     cls, ma = s["marks"][cur.g]
                     if typ in (4, 5):
                         j = i - 1
-                        while j >= 0 and (buf[j].props & MARK or is_di(buf[j])):
+                        while j >= 0 and (buf[j].props & MARK or is_di(buf[j])
+                                          or (typ == 4 and later_of_sequence(buf, j) and buf[j].g not in s["bases"])):
                             j -= 1
                         if j < 0:
                             continue
@@ -381,6 +420,9 @@ def check(sem, text, d, flags, so, s0, stats=None):
         return f"shape() failed on a target-search font: {so[:80]} / {s0[:80]}"
     B = list(reversed(text)) if d == "b" else list(text)
     buf, att = expected(sem, B)
+    if att is None:
+        if stats is not None: stats["markbase_subtables_disagree_on_sequence_glyph(not judged)"] += 1
+        return None
     keep = [k for k in range(len(buf)) if flags & PRESERVE_DI or not is_di(buf[k])]
     vis = list(reversed(keep)) if d == "r" else keep            # output order -> buffer index
     want = [buf[k].g for k in vis]
@@ -395,7 +437,8 @@ def check(sem, text, d, flags, so, s0, stats=None):
     if stats is not None:
         stats["shapes"] += 1; stats["per_dir"][d] += 1
         stats["attached"] += len(att)
-        if len(buf) != len(B): stats["with_ligature"] += 1
+        if len(buf) < len(B): stats["with_ligature"] += 1
+        if any(x.mult for x in buf): stats["with_multiple_subst"] += 1
         for i, (j, _, _, kind) in att.items():
             if not buf[i].props & MARK: stats["attached_non_mark"] += 1
             if kind == "mark" and any(not (buf[k].props & MARK) for k in range(j + 1, i)): stats["default_ignorable_between"] += 1
